@@ -24,18 +24,28 @@ say() { echo "$@" | tee -a "$LOG"; }
 # demo files -> their repo paths
 place_demos() {
 python3 - "$SRC/meta.json" "$SRC/demo" "$W" <<'PY'
-import json,sys,os,shutil
+import json,sys,os,shutil,re
 meta=json.load(open(sys.argv[1])); demo=sys.argv[2]; w=sys.argv[3]
-paths=[meta.get("demo_path")]+[e.get("demo_path") for e in meta.get("extra_demos",[])]
-for p in paths:
-    if not p: continue
-    src=os.path.join(demo,os.path.basename(p))
-    if not os.path.exists(src):
-        for root,_,files in os.walk(demo):
-            if os.path.basename(p) in files: src=os.path.join(root,os.path.basename(p))
-    if os.path.exists(src):
-        os.makedirs(os.path.dirname(os.path.join(w,p)),exist_ok=True)
-        shutil.copy(src,os.path.join(w,p)); print("placed",p)
+texts=[meta.get("demo_path")]+[e.get("demo_path") for e in meta.get("extra_demos",[]) if isinstance(e,dict)]
+# repo-relative .go paths mentioned anywhere in the demo_path texts
+mentioned=[]
+for t in texts:
+    if isinstance(t,str): mentioned+=re.findall(r"[\w./-]+\.go", t)
+    elif isinstance(t,list):
+        for x in t: mentioned+=re.findall(r"[\w./-]+\.go", str(x))
+for root,_,files in os.walk(demo):
+    for f in files:
+        src=os.path.join(root,f); rel=os.path.relpath(src,demo)
+        dst=None
+        if os.sep in rel and os.path.isdir(os.path.join(w,os.path.dirname(rel))):
+            dst=rel                                   # demo/ mirrors the repository layout
+        else:
+            c=[m for m in mentioned if os.path.basename(m)==f and not m.startswith("demo/")]
+            if c: dst=c[0]
+        if dst is None:
+            print("NOT PLACED",rel); continue
+        os.makedirs(os.path.dirname(os.path.join(w,dst)) or w,exist_ok=True)
+        shutil.copy(src,os.path.join(w,dst)); print("placed",dst)
 PY
 }
 demo_cmds() {
@@ -59,6 +69,7 @@ run_demos() { # returns 0 if all demo commands pass
 place_demos >> "$LOG"
 say "== demo WITHOUT patch (must pass)"
 if run_demos; then say "demo_without_patch: PASS"; DW=pass; else say "demo_without_patch: FAIL"; DW=fail; fi
+if [ "$(grep -a -E '^ok' "$LOG" | grep -a -v -c 'no tests to run')" = 0 ] && grep -a -q "no tests to run" "$LOG"; then say "demo did not run any test (placement problem)"; DW=notrun; fi
 say "== apply patch"
 git -C "$W" apply "$SRC/patch.diff" || { say "patch does not apply to HEAD"; echo '{"applies":false}' > "$DST/confirm.json"; exit 1; }
 ( cd "$W" && go build ./... ) >> "$LOG" 2>&1 && say "build: ok" || say "build: FAILED"
@@ -67,13 +78,24 @@ if run_demos; then say "demo_with_patch: PASS (does not demonstrate)"; DP=pass; 
 # remove demos before the suite (the suite must be the repository's own, unedited)
 git -C "$W" clean -fdq
 say "== repository test suite with the patch"
+PREV=$(python3 -c "import json,sys;print(json.load(open('$DST/confirm.json')).get('suite',''))" 2>/dev/null)
+if [ -n "${SKIP_SUITE:-}" ] && [[ "$PREV" == pass* ]]; then
+  SUITE="$PREV"; say "suite not rerun (SKIP_SUITE): earlier confirmation recorded '$PREV'"
+else
 ( cd "$W" && go test -vet=off -count=1 -p 6 -timeout 25m -skip 'TestGetChunkSignature_PersistAttestedBlocks' ./... ) > "$DST/suite.log" 2>&1
 SUITE=pass; grep -E "^(FAIL|---  FAIL|--- FAIL|panic:)" "$DST/suite.log" >> "$LOG" && SUITE=fail
 if [ "$SUITE" = fail ]; then
   # packages that fail only because of machine load / the fixed pubsub port are rerun alone
   PK=$(grep -E "^FAIL\s+github.com" "$DST/suite.log" | awk '{print $2}' | sed 's#github.com/ava-labs/hypersdk#.#' | sort -u | tr '\n' ' ')
   say "rerunning alone: $PK"
-  if ( cd "$W" && go test -vet=off -count=1 -p 1 -timeout 25m -skip 'TestGetChunkSignature_PersistAttestedBlocks' $PK ) > "$DST/suite-rerun.log" 2>&1; then SUITE="pass (after rerunning $PK alone)"; else grep -E "^(FAIL|--- FAIL|panic:)" "$DST/suite-rerun.log" >> "$LOG"; fi
+  for attempt in 1 2 3 4; do
+    # the pubsub tests bind 127.0.0.1:8080: wait until nobody else on this machine holds it
+    for w8 in $(seq 1 60); do ss -ltn 2>/dev/null | grep -q ":8080 " || break; sleep 5; done
+    if ( cd "$W" && go test -vet=off -count=1 -p 1 -timeout 25m -skip 'TestGetChunkSignature_PersistAttestedBlocks' $PK ) > "$DST/suite-rerun.log" 2>&1; then SUITE="pass (after rerunning $PK alone)"; break; fi
+    PK=$(grep -E "^FAIL\s+github.com" "$DST/suite-rerun.log" | awk '{print $2}' | sed 's#github.com/ava-labs/hypersdk#.#' | sort -u | tr '\n' ' ')
+  done
+  [ "$SUITE" = fail ] && grep -E "^(FAIL|--- FAIL|panic:)" "$DST/suite-rerun.log" >> "$LOG"
+fi
 fi
 say "suite: $SUITE ($(grep -c '^ok' "$DST/suite.log") packages ok)"
 say "== our checks against the patched tree"
